@@ -225,7 +225,7 @@ PROPS = {
     "C04": {
         "level": "proof",
         "level_prefix": "Partial proof -- contracts discharged without bound on the mechanisms named below, not the whole statement (bounded stand-ins and what is left out are listed): ",
-        "units": ["nameorder", "nsec3order", "rdbin"],
+        "units": ["nameorder", "nsec3order", "rdbin", "rdnames"],
         "vx_search": {"bin": "c04_search_small_values", "crate": "replay", "release": True,
                       "what": "about 15000 pairs/triples of small names (57 names of up to two labels over a,A,b,[,NUL,ab,aB) and of small "
                               "Nsec, Nsec3, Nsec3param, Rrsig, Dnskey, Ds, Zonemd, Svcb, Mx, Srv and unknown record data values, checked "
@@ -301,7 +301,11 @@ PROPS = {
                        "of the RDATA (16-bit big-endian head, two octets, key or digest), cmp and partial_cmp agree with it, Dnskey == "
                        "is field-wise. TLSA, SSHFP and OPENPGPKEY (unit rdbin, real text of the PartialEq/PartialOrd/Ord/CanonicalOrd impls): "
                        "== holds exactly for values with the same RDATA, canonical_cmp, cmp and partial_cmp are the octet order of the RDATA "
-                       "(lemmas: the field-by-field order is the octet order of the concatenation); ZONEMD == likewise. "
+                       "(lemmas: the field-by-field order is the octet order of the concatenation); ZONEMD == likewise. MX, SRV and SOA (unit "
+                       "rdnames, real text of the impls): == is field-wise with the embedded names compared up to case; cmp and partial_cmp "
+                       "agree and order by the fields with names in the RFC 4034 6.1 order; canonical_cmp == octet order of the canonical "
+                       "RDATA (integers big-endian, names lower-cased in wire form; for SOA this needs that wire-form names are prefix-free: "
+                       "lemma_abs_concat). "
                        "Laws proved over the reference definitions the code is tied to: the name order is antisymmetric, "
                        "transitive, and Equal exactly on names that are name_eq (so order, equality and representation cannot "
                        "disagree). Labels, records (Kani on the compiled generic code, whose comparison code is written with "
@@ -648,7 +652,7 @@ PROPS = {
     "C05": {
         "level": "proof",
         "level_prefix": "Partial proof -- contracts discharged without bound on the mechanisms named below, not the whole statement (bounded stand-ins and what is left out are listed): ",
-        "units": ["rtypebitmap", "tsig", "rdcompose", "rdparse", "rdbin"],
+        "units": ["rtypebitmap", "tsig", "rdcompose", "rdparse", "rdbin", "rdnames"],
         "vx_search": {"bin": "c05_search_small_rdata", "crate": "replay", "release": True,
                       "what": "199 small values of 22 record data types (A, AAAA, MX, SRV, NS, CNAME, PTR, DNAME, SOA, NSEC, RRSIG, DNSKEY, DS, CDS, CDNSKEY, "
                               "TLSA, SSHFP, OPENPGPKEY, NSEC3PARAM, NSEC3, TXT, HINFO; boundary values, mixed-case names, full 32-octet bitmap "
@@ -702,6 +706,13 @@ PROPS = {
                        "parse() reads -- parse accepts exactly the record data that has the fixed octets (ZONEMD: and a digest of at least 12 "
                        "octets), consumes all of it and returns a value whose wire form is the octets read; the layouts are injective, so "
                        "parse(compose(x)) has the fields of x for data of every length. "
+                       "Unit rdnames (rdata/rfc1035/mx.rs, rdata/srv.rs, rdata/rfc1035/soa.rs, real text): record data with embedded names. "
+                       "For MX, SRV and SOA compose_rdata() on a target that does not compress appends wire() (fields in wire order, names as "
+                       "stored); on a compressing target MX and SOA write the same fields in the same order with each name in the target's "
+                       "compressed form and SRV still writes it uncompressed (RFC 2782); compose_canonical_rdata() appends canon() = the same "
+                       "with exactly the embedded names lower-cased (RFC 4034 6.2); rdlen(false) is the length of both and rdlen(true) is None "
+                       "for MX and SOA; parse() reads the integers big-endian and the names in wire order, each name starting where the "
+                       "previous field ended (SOA: accepted exactly when two names and twenty octets are there). "
                        "Otherwise: bounded/complete contract checking with Kani of the compose/parse/rdlen quadruple on the compiled, "
                        "macro-generated generic code, for the record types CBMC can handle: A and AAAA complete over all values; DS, "
                        "DNSKEY, TLSA, SSHFP, HINFO with small symbolic octet fields; MX and SRV with one fixed name (canonical "
@@ -717,6 +728,9 @@ PROPS = {
             "Rtype (int_enum! macro) is modelled as a 16-bit code with from_int/to_int",
             "octets values are at most a quarter of the address space long (makes the checked_add(..).expect() of Tsig::new dead code)",
             "ToName::compose_len is between 1 and 255 (C03)",
+            "unit rdnames: ToName::{compose, compose_canonical, compose_len} append / measure the uncompressed wire form as stored / lower-cased (label iterators; C03, C04), "
+            "name_eq/name_cmp/lowercase_composed_cmp as proved in unit nameorder; ParsedName::parse is a function name_at(window, position) of the message "
+            "(unit nameparse); a compressing target's append_compressed_name writes an uninterpreted compressed form (reading it back: C02)",
             "Compose for u8/u16/int_enum! types appends the big-endian octets (to_be_bytes has no Verus specification); Composer::append_slice appends exactly the slice or fails leaving the target alone",
             "Parse for u8/u16/int_enum! types reads the big-endian octets and fails without moving on short input; Parser::parse_octets (Octets::range) returns the next len octets (octseq; for [u8] slicing)",
         ],
